@@ -67,6 +67,9 @@ class StreamReader:
         self.module = module
         self.w = walk
         self.ren = ren or {}
+        # denotations that were read and are wrong (not merely unreadable): the rule reports
+        # them as violations
+        self.problems: List[str] = []
 
     # ------------------------------------------------------------------ helpers
     def ex(self, e: ast.AST, stop=()) -> ast.AST:
@@ -198,6 +201,20 @@ class StreamReader:
                 st = inner_pairs
                 mp[a] = _attr(_P(), 'y')
                 mp[b] = _attr(_P(), 'x')
+        if st is None and len(gens) == 1 and isinstance(gens[0].target, ast.Tuple) and \
+                len(gens[0].target.elts) == 2 and \
+                all(isinstance(t, ast.Name) for t in gens[0].target.elts) and \
+                isinstance(gens[0].iter, ast.Call) and src(gens[0].iter.func) == 'enumerate' \
+                and len(gens[0].iter.args) == 1 and not gens[0].iter.keywords:
+            # enumerate(<all cells of G, row after row>): the flat index i stands for the
+            # position (i // width, i % width)
+            g = gens[0]
+            G = self._flat_cells(g.iter.args[0])
+            if G is not None:
+                i, obj = (t.id for t in g.target.elts)
+                st = Stream('cells', G, source='enumerate(flattened rows)')
+                mp[i] = ast.Name('_FLAT', ast.Load())
+                mp[obj] = ast.Name('O', ast.Load())
         if st is None and len(gens) == 2 and all(not g.ifs for g in gens[:1]):
             g0, g1 = gens
             # range(height) x range(width)
@@ -231,6 +248,34 @@ class StreamReader:
             return None
         conds = [c for g in gens for c in g.ifs]
         return self._finish(st, e.elt, conds, mp)
+
+    def _flat_cells(self, e: ast.AST) -> Optional[str]:
+        """G when `e` lists the cells of G row after row: chain.from_iterable(G.objects),
+        chain(*G.objects), (o for row in G.objects for o in row)"""
+        if isinstance(e, ast.Name):
+            d = self.w.single_def(e.id, outside_comps=True)
+            if d is None or d[0] != 'value':
+                return None
+            e = d[1]
+        rows = None
+        if isinstance(e, ast.Call) and src(e.func).split('.')[-2:] == ['chain', 'from_iterable'] \
+                and len(e.args) == 1 and not e.keywords:
+            rows = e.args[0]
+        elif isinstance(e, ast.Call) and src(e.func).split('.')[-1] == 'chain' and \
+                len(e.args) == 1 and isinstance(e.args[0], ast.Starred) and not e.keywords:
+            rows = e.args[0].value
+        elif isinstance(e, (ast.GeneratorExp, ast.ListComp)) and len(e.generators) == 2 and \
+                not any(g.ifs for g in e.generators) and \
+                all(isinstance(g.target, ast.Name) for g in e.generators) and \
+                src(e.generators[1].iter) == e.generators[0].target.id and \
+                src(e.elt) == e.generators[1].target.id:
+            rows = e.generators[0].iter
+        if rows is None:
+            return None
+        rows = self.ex(rows)
+        if isinstance(rows, ast.Attribute) and rows.attr == 'objects':
+            return src(rows.value)
+        return None
 
     def _pair_stream(self, e: ast.AST, depth: int) -> Optional[Stream]:
         """an inner generator of (y, x) pairs: `((C.y + dy, C.x + dx) for dy, dx in TABLE)`"""
@@ -379,6 +424,28 @@ class StreamReader:
                 if src(n.func) == 'Position' and [src(a) for a in n.args] == ['P.y', 'P.x'] \
                         and not n.keywords:
                     return _P()
+                if src(n.func) == 'Position' and not n.keywords and \
+                        any(isinstance(x, ast.Name) and x.id == '_FLAT' for x in ast.walk(n)):
+                    # Position(*divmod(i, D)) / Position(i // D, i % D) of a flat index
+                    divs = None
+                    if len(n.args) == 1 and isinstance(n.args[0], ast.Starred) and \
+                            isinstance(n.args[0].value, ast.Call) and \
+                            src(n.args[0].value.func) == 'divmod' and \
+                            len(n.args[0].value.args) == 2 and \
+                            src(n.args[0].value.args[0]) == '_FLAT':
+                        divs = [n.args[0].value.args[1]] * 2
+                    elif len(n.args) == 2 and all(
+                            isinstance(a, ast.BinOp) and src(a.left) == '_FLAT'
+                            for a in n.args) and isinstance(n.args[0].op, ast.FloorDiv) and \
+                            isinstance(n.args[1].op, ast.Mod):
+                        divs = [n.args[0].right, n.args[1].right]
+                    if divs is not None:
+                        owners = [reader.grid_of_extent(d, 'width') for d in divs]
+                        if all(o == st.grid for o in owners):
+                            return _P()
+                        reader.problems.append(
+                            f'the flat index over the rows of `{st.grid}` is decoded with '
+                            f'`{src(divs[0])}`; row-major cells are (i // width, i % width)')
                 return n
 
             def visit_Subscript(self, n: ast.Subscript):
